@@ -8,8 +8,12 @@ mod refmodel;
 mod report;
 mod runner;
 
+mod cmpx;
+mod c01;
+mod c02;
 mod c04;
 mod c05;
+mod c06;
 
 use report::{machinery, Report, Tier};
 
@@ -53,8 +57,11 @@ fn main() {
     let mut rep = Report::new(&id, tier);
     rep.replay_mode = ctx.replay.is_some();
     match id.as_str() {
+        "C01" => c01::run(&ctx, &mut rep),
+        "C02" => c02::run(&ctx, &mut rep),
         "C04" => c04::run(&ctx, &mut rep),
         "C05" => c05::run(&ctx, &mut rep),
+        "C06" => c06::run(&ctx, &mut rep),
         _ => machinery(&format!("no check registered for {id}")),
     }
     rep.finish();
